@@ -486,6 +486,11 @@ def index(base, idx):
         # byte k of a u64 in little-endian order is the 8-bit window at bit 8k
         k = idx.args[0]
         return mk("cast", "u8", intop("band", intop("shr", base.args[0], lit(8 * k)) if k else base.args[0], lit(255)))
+    if idx.op == "struct" and idx.args[0] == "core::ops::Range" and idx.args[1] == ("start", "end") and all(is_lit(x) and isinstance(x.args[0], int) for x in idx.args[2:4]):
+        a_, b_ = idx.args[2].args[0], idx.args[3].args[0]
+        w_ = b_ - a_
+        if w_ in (4, 8) and a_ % w_ == 0:
+            return mk("chunk", base, w_, a_ // w_)      # bytes[8i..8i+8] is the i-th limb-sized chunk, like [b[8i], .., b[8i+7]]
     if base.op == "bits_le" and idx is lit(0):
         return mk("sign", base.args[0])      # lsb of the canonical little-endian bit decomposition = the sign convention
     if is_lit(idx) and isinstance(idx.args[0], int):
